@@ -1,0 +1,6 @@
+//go:build !verif
+
+package leader
+
+// verifYield is a no-op in the default build (see verif_hooks.go).
+func verifYield(site string) {}
